@@ -10,6 +10,15 @@ and when FailedAssertionException escapes `start_simulation` / `step_simulation`
 been taken from the event loop by then (read through a user-written handler that is handed the loop by
 the public `inject`), which protocol callbacks had run, and whether the protocols' `finish` had run
 (failure at finalisation vs interruption).
+
+Two further usage shapes of the public API (the property speaks of "the run" and of "simulation assertions",
+not of one particular way of installing them):
+ * the assertions are bundled in a user's subclass of AssertionHandler (own constructor, intermediate base
+   class, extra reporting around register_node / finalize / the after-step hook via super()) - `handler`;
+ * a batch: the SAME decorated assertions (and protocol classes) are handed to the AssertionHandlers of
+   several simulations with their own node populations and scripts - built and run one after the other, all
+   built before the first is run, or stepped side by side (`sims`, `plan`).  Each run is judged by its own
+   timeline alone.
 """
 import copy
 import json
@@ -92,11 +101,21 @@ def timeline(case):
     return out
 
 
-def pred_tables(case):
+def sims_of(case):
+    """the simulations of a case: a batch lists them under "sims" (they share case["specs"]), a single
+    simulation is the case itself"""
+    return case["sims"] if "sims" in case else [case]
+
+
+HANDLERS = ["plain", "own-constructor", "intermediate-base", "reporting", "hook-wrapping"]
+PLANS = ["sequential", "build-first", "interleaved"]
+
+
+def pred_tables(sim, specs):
     """per assertion: its predicate's value after every executed event (per node for protocol-scoped)"""
-    tl = timeline(case)
+    tl = timeline(sim)
     out = []
-    for sp in case["specs"]:
+    for sp in specs:
         if sp["kind"].endswith("Proto"):
             out.append([row[sp["attr"]] for row in tl])
         else:
@@ -105,8 +124,9 @@ def pred_tables(case):
 
 
 class Rec:
-    def __init__(self, case):
-        self.case = case
+    """what one simulation of the case did"""
+    def __init__(self, sim):
+        self.case = sim
         self.scheduled = 0
         self.delivered = []  # indices of the events whose protocol callback ran, in order
         self.finished = 0
@@ -121,7 +141,9 @@ class Rec:
 
 def make_probe(rec):
     """a user-written handler: the public `inject` hands it the simulation's event loop, whose public `len`
-    tells how many scheduled events have not been executed yet"""
+    tells how many scheduled events have not been executed yet; the public `register_node` hands it every node
+    of its simulation, whose protocol it tells which simulation's script to play (the protocol classes and the
+    decorated assertions of a batch are shared by its simulations)"""
     class Probe(INodeHandler):
         @staticmethod
         def get_label():
@@ -131,14 +153,17 @@ def make_probe(rec):
             rec.loop = event_loop
 
         def register_node(self, node):
-            pass
+            node.protocol_encapsulator.protocol.rec = rec
 
     return Probe()
 
 
-def make_protocols(rec):
+def make_protocols():
     class Base(IProtocol):
+        rec = None
+
         def initialize(self):
+            rec = self.rec
             n = self.provider.get_id()
             for a in ATTRS:
                 setattr(self, a, rec.case["init"][n][a])
@@ -150,6 +175,7 @@ def make_protocols(rec):
                         self.provider.cancel_timer(f"e{k}")
 
         def handle_timer(self, timer):
+            rec = self.rec
             j = int(timer[1:])
             ev = rec.case["events"][j]
             if ev[2] is not None:
@@ -166,7 +192,7 @@ def make_protocols(rec):
             pass
 
         def finish(self):
-            rec.finished += 1
+            self.rec.finished += 1
 
     class P0(Base):
         pass
@@ -177,62 +203,178 @@ def make_protocols(rec):
     return [P0, P1]
 
 
-def make_assertion(rec, idx, sp, classes):
+def make_assertion(idx, sp, classes):
+    """one decorated assertion - the object a user would define at module level and hand to the
+    AssertionHandler of every simulation that wants it"""
     kind = sp["kind"]
     if kind.endswith("Proto"):
         def pred(node):
-            v = bool(getattr(node.protocol_encapsulator.protocol, sp["attr"]))
-            rec.seen.append((idx, node.id, rec.executed, v))
+            protocol = node.protocol_encapsulator.protocol
+            v = bool(getattr(protocol, sp["attr"]))
+            protocol.rec.seen.append((idx, node.id, protocol.rec.executed, v))
             return v
         deco = assert_always_true_for_protocol if kind == "alwaysProto" else assert_eventually_true_for_protocol
         return deco(classes[sp["T"]], f"assertion{idx}")(pred)
 
     def pred_sim(nodes):
         v = sim_fn(sp["fn"], [bool(getattr(n.protocol_encapsulator.protocol, sp["attr"])) for n in nodes])
+        rec = nodes[0].protocol_encapsulator.protocol.rec
         rec.seen.append((idx, None, rec.executed, v))
         return v
     deco = assert_always_true_for_simulation if kind == "alwaysSim" else assert_eventually_true_for_simulation
     return deco(f"assertion{idx}")(pred_sim)
 
 
-def run_real(case):
-    rec = Rec(case)
-    classes = make_protocols(rec)
-    conf = SimulationConfiguration(max_iterations=case.get("maxIter"), execution_logging=False)
-    builder = SimulationBuilder(conf)
-    handlers = {"assertion": AssertionHandler([make_assertion(rec, i, sp, classes) for i, sp in enumerate(case["specs"])]),
-                "timer": TimerHandler()}
-    for label in (["assertion", "timer"] if case.get("order", "assertion-first") == "assertion-first" else ["timer", "assertion"]):
-        builder.add_handler(handlers[label])
-    builder.add_handler(make_probe(rec))
-    for t in case["ptypes"]:
-        builder.add_node(classes[t], (0.0, 0.0, 0.0))
-    sim = builder.build()
-    quiet_logging()
-    exc, steps = None, 0
-    try:
-        if case["drive"]["mode"] == "start":
-            sim.start_simulation()
-        else:
-            while steps < len(case["events"]) + 5:
-                steps += 1
-                if not sim.step_simulation():
-                    break
-    except FailedAssertionException:
-        exc = "FailedAssertionException"
-    except Exception as e:        # anything else is a crash
-        exc = "crash:" + type(e).__name__
-    finally:
+def make_handler(kind, assertions):
+    """the assertion handler as a user would install it: AssertionHandler itself, or the user's own class
+    derived from it through the public constructor / hooks only"""
+    if kind == "plain":
+        return AssertionHandler(assertions)
+    if kind == "own-constructor":
+        class ProjectAssertions(AssertionHandler):
+            """a project's bundle of assertions with its own constructor"""
+            def __init__(self, title, checks):
+                super().__init__(checks)
+                self.title = title
+
+        return ProjectAssertions("c18", assertions)
+    if kind == "intermediate-base":
+        class TitledAssertions(AssertionHandler):
+            title = "untitled"
+
+            def describe(self):
+                return self.title
+
+        class ScenarioAssertions(TitledAssertions):
+            title = "scenario"
+
+            def __init__(self):
+                super().__init__(list(assertions))
+
+        return ScenarioAssertions()
+    if kind == "reporting":
+        class ReportingAssertions(AssertionHandler):
+            """extra reporting around registration and finalisation; the per-step hook is the inherited one"""
+            def __init__(self, checks):
+                super().__init__(checks)
+                self.registered, self.finalized = 0, False
+
+            def register_node(self, node):
+                self.registered += 1
+                super().register_node(node)
+
+            def finalize(self):
+                try:
+                    super().finalize()
+                finally:
+                    self.finalized = True
+
+        return ReportingAssertions(assertions)
+    if kind == "hook-wrapping":
+        class CountingAssertions(AssertionHandler):
+            """counts the judged steps, then lets the inherited hook judge"""
+            judged = 0
+
+            def after_simulation_step(self, iteration, timestamp):
+                self.judged += 1
+                super().after_simulation_step(iteration, timestamp)
+
+        return CountingAssertions(assertions)
+    raise ValueError(kind)
+
+
+class Run:
+    """one simulation of the case: built, then driven to its end in one go or step by step"""
+    def __init__(self, sim, assertions, classes, handler_kind):
+        self.sim, self.assertions, self.classes, self.handler_kind = sim, assertions, classes, handler_kind
+        self.rec = Rec(sim)
+        self.sim_obj, self.exc, self.steps, self.over = None, None, 0, False
+
+    def build(self):
+        sim = self.sim
+        conf = SimulationConfiguration(max_iterations=sim.get("maxIter"), execution_logging=False)
+        builder = SimulationBuilder(conf)
+        handlers = {"assertion": make_handler(self.handler_kind, self.assertions), "timer": TimerHandler()}
+        for label in (["assertion", "timer"] if sim.get("order", "assertion-first") == "assertion-first"
+                      else ["timer", "assertion"]):
+            builder.add_handler(handlers[label])
+        builder.add_handler(make_probe(self.rec))
+        for t in sim["ptypes"]:
+            builder.add_node(self.classes[t], (0.0, 0.0, 0.0))
+        self.sim_obj = builder.build()
         quiet_logging()
-    n = len(case["ptypes"])
-    if exc is None:
-        verdict = "passed"
-    elif exc == "FailedAssertionException":
-        verdict = "failedAtEnd" if rec.finished == n else ["failedAfter", rec.executed - 1]
+
+    def guarded(self, action):
+        """runs the action; an exception ends this run (manual stepping stops at the first exception)"""
+        try:
+            return action()
+        except FailedAssertionException:
+            self.exc = "FailedAssertionException"
+        except Exception as e:        # anything else is a crash
+            self.exc = "crash:" + type(e).__name__
+        finally:
+            quiet_logging()
+        self.over = True
+        return False
+
+    def step(self):
+        """one step_simulation; False when this run is over"""
+        if self.over or self.steps >= len(self.sim["events"]) + 5:
+            self.over = True
+            return False
+        self.steps += 1
+        if not self.guarded(self.sim_obj.step_simulation):
+            self.over = True
+        return not self.over
+
+    def finish_run(self, mode):
+        if self.over:
+            return
+        if mode == "start":
+            self.guarded(self.sim_obj.start_simulation)
+            self.over = True
+        else:
+            while self.step():
+                pass
+
+    def result(self):
+        rec, n = self.rec, len(self.sim["ptypes"])
+        if self.exc is None:
+            verdict = "passed"
+        elif self.exc == "FailedAssertionException":
+            verdict = "failedAtEnd" if rec.finished == n else ["failedAfter", rec.executed - 1]
+        else:
+            verdict = self.exc
+        return {"verdict": verdict, "executed": rec.executed, "delivered": rec.delivered, "finished": rec.finished,
+                "steps": self.steps, "seen": rec.seen}
+
+
+def run_real(case):
+    sims = sims_of(case)
+    classes = make_protocols()
+    assertions = [make_assertion(i, sp, classes) for i, sp in enumerate(case["specs"])]
+    runs = [Run(sim, assertions, classes, case.get("handler", "plain")) for sim in sims]
+    plan = case.get("plan", "sequential")
+    if plan == "sequential":
+        for run in runs:
+            run.build()
+            run.finish_run(run.sim["drive"]["mode"])
     else:
-        verdict = exc
-    return {"verdict": verdict, "executed": rec.executed, "delivered": rec.delivered, "finished": rec.finished,
-            "steps": steps, "seen": rec.seen}
+        for run in runs:
+            run.build()
+        if plan == "interleaved":
+            # stepped side by side: the scripted turns first, then whatever is left, in order
+            for k in case.get("turns", []):
+                runs[k % len(runs)].step()
+            for run in runs:
+                run.finish_run("steps")
+        else:
+            order = case.get("runOrder") or list(range(len(runs)))
+            for k in order:
+                runs[k].finish_run(runs[k].sim["drive"]["mode"])
+            for run in runs:
+                run.finish_run(run.sim["drive"]["mode"])
+    return {"runs": [run.result() for run in runs]}
 
 
 class C18(Check):
@@ -242,7 +384,8 @@ class C18(Check):
                   "after which an always-assertion is violated and executes nothing afterwards; it fails at finalisation "
                   "exactly when it was not interrupted and some eventually-assertion was never met; the zero-event gap of the "
                   "pinned per-node bookkeeping (F18) is a proved negative instance and the repaired bookkeeping is proved at "
-                  "full strength. Tied to the real AssertionHandler inside real simulations by differential execution.")
+                  "full strength. Tied to the real AssertionHandler inside real simulations by differential execution "
+                  "(every simulation of a batch sharing its decorated assertions against its own model run).")
     rule = ("real simulations with a TimerHandler and an AssertionHandler holding 1-3 assertions of the four decorator kinds; "
             "1-4 nodes of 2 protocol classes whose boolean attributes are flipped by scripted timers (0-7 events, ties, noise "
             "events, max_iterations cuts incl. 0); in half of the runs timers are cancelled in initialize or by an earlier "
@@ -251,15 +394,25 @@ class C18(Check):
             "later event), so that the deciding event is a cancelled timer's; the first always-violation placed at every position 0..last or nowhere, on "
             "the last node of the asserted type, with nodes of the other type violating from the start; eventually-predicates "
             "met at a chosen position, after the cut, or never, per node; zero-event runs; start_simulation and manual "
-            "stepping; both handler registration orders; non-trivial = both protocol types present and the deciding node is "
-            "the last node of the asserted type")
+            "stepping; both handler registration orders; in half of the cases the assertions are installed through a "
+            "user-defined class derived from AssertionHandler (own constructor / intermediate base class / reporting around "
+            "register_node and finalize / after-step hook wrapped via super()); besides the single simulations, batches of "
+            "2-3 simulations that are handed the SAME decorated assertions and protocol classes, with unrelated, shrinking, "
+            "growing, re-typed or equal node populations, each with its own script, run one after the other, all built "
+            "before any is run (any order) or stepped side by side, every run judged by its own timeline (mostly "
+            "eventually-assertions, so that runs which pass, fail at the end and leave unmet node ids meet); "
+            "non-trivial = both protocol types present and the deciding node is the last node of the asserted type")
     assumptions = ["predicates are judged after each executed event (never before the first)",
                    "same-instant timers run in scheduling order (C03) - used only to script the timeline",
                    "manual stepping stops at the first exception (the blocking-run reading of 'no further event')",
                    "the event of a cancelled timer is an executed event (it is taken from the event loop and counted as an "
                    "iteration, C02) that runs no protocol callback - checked on every run against the callbacks that ran",
                    "executed events are counted as scheduled events no longer in the event loop, read by a user-written "
-                   "handler through the public inject()/len()"]
+                   "handler through the public inject()/len()",
+                   "'the run' is the run of one simulation: a decorated assertion handed to several AssertionHandlers is "
+                   "judged in each simulation by that simulation's executed events and nodes only",
+                   "a class derived from AssertionHandler that keeps (or extends through super()) the inherited hooks is "
+                   "still the simulation's assertion handler"]
     modelled = ["gradysim/simulator/handler/assertion.py",
                 "gradysim/simulator/simulation.py (after-step fan-out, finalisation, exception propagation)"]
 
@@ -273,15 +426,24 @@ class C18(Check):
         n = 2500 if tier == "quick" else 40000
         for i in range(n):
             yield self.gen_case(stable_hash("C18", seed, i), i, f"gen/{seed}/{i}")
+        m = 700 if tier == "quick" else 12000
+        for i in range(m):
+            yield self.gen_batch(stable_hash("C18", "batch", seed, i), i, f"batch/{seed}/{i}")
 
-    def gen_case(self, s, i, label):
+    def gen_case(self, s, i, label, specs=None, ptypes=None):
+        """one simulation; `specs` / `ptypes` given = a member of a batch, scripted against the batch's shared
+        assertions and with the population the batch wants"""
         r = random.Random(s)
         nn = r.choice([1, 2, 2, 3, 3, 4, 4])
-        ptypes = [r.randint(0, 1) for _ in range(nn)]
+        own_ptypes = [r.randint(0, 1) for _ in range(nn)]
         if nn >= 2 and r.random() < 0.7:
-            ptypes[r.randrange(nn)] = 0
-            others = [k for k in range(nn) if ptypes[k] != 0] or [r.randrange(nn)]
-            ptypes[r.choice(others)] = 1
+            own_ptypes[r.randrange(nn)] = 0
+            others = [k for k in range(nn) if own_ptypes[k] != 0] or [r.randrange(nn)]
+            own_ptypes[r.choice(others)] = 1
+        if ptypes is None:
+            ptypes = own_ptypes
+        else:
+            ptypes, nn = list(ptypes), len(ptypes)
         L = r.choice([0, 0, 1, 2, 3, 4, 5, 6, 7])
         times, t = [], 0
         for _ in range(L):
@@ -289,14 +451,16 @@ class C18(Check):
             times.append(t)
         events = [[times[k], r.randrange(nn), None, None] for k in range(L)]
         init = [{"a": True, "b": False} for _ in range(nn)]
-        specs = []
-        for _ in range(r.choice([1, 1, 2, 2, 3])):
-            kind = r.choice(["alwaysProto", "alwaysProto", "eventuallyProto", "eventuallyProto", "alwaysSim", "eventuallySim"])
-            attr = "a" if kind.startswith("always") else "b"
-            if kind.endswith("Proto"):
-                specs.append({"kind": kind, "T": r.randint(0, 1), "attr": attr})
-            else:
-                specs.append({"kind": kind, "fn": r.choice(SIM_FNS), "attr": attr})
+        member = specs is not None
+        if not member:
+            specs = []
+            for _ in range(r.choice([1, 1, 2, 2, 3])):
+                kind = r.choice(["alwaysProto", "alwaysProto", "eventuallyProto", "eventuallyProto", "alwaysSim", "eventuallySim"])
+                attr = "a" if kind.startswith("always") else "b"
+                if kind.endswith("Proto"):
+                    specs.append({"kind": kind, "T": r.randint(0, 1), "attr": attr})
+                else:
+                    specs.append({"kind": kind, "fn": r.choice(SIM_FNS), "attr": attr})
         # script the attributes: 'a' carries the always-predicates, 'b' the eventually-predicates
         T = next((sp["T"] for sp in specs if sp["kind"] == "alwaysProto"), r.randint(0, 1))
         of_T = [k for k in range(nn) if ptypes[k] == T]
@@ -331,9 +495,58 @@ class C18(Check):
             # ... unless it is still true after the first executed event, which the script decides
         max_iter = r.choice([None, None, None, 0, 1, 2, 3, 5])
         self.gen_stale(random.Random(stable_hash("C18", "stale", s)), ptypes, init, events, of_T, of_E)
-        return {"kind": "assertions", "seed": s, "label": label, "ptypes": ptypes, "init": init, "events": events,
-                "specs": specs, "order": r.choice(["assertion-first", "timer-first"]), "maxIter": max_iter,
-                "drive": {"mode": r.choice(["start", "steps"])}}
+        sim = {"ptypes": ptypes, "init": init, "events": events, "order": r.choice(["assertion-first", "timer-first"]),
+               "maxIter": max_iter, "drive": {"mode": r.choice(["start", "steps"])}}
+        if member:
+            return sim
+        return {"kind": "assertions", "seed": s, "label": label, "specs": specs, "handler": self.gen_handler(s), **sim}
+
+    @staticmethod
+    def gen_handler(s):
+        """(own random stream)  how the user installs the assertions: half of the time AssertionHandler itself,
+        else one of the user-defined classes derived from it"""
+        r = random.Random(stable_hash("C18", "handler", s))
+        return "plain" if r.random() < 0.5 else r.choice(HANDLERS[1:])
+
+    def gen_batch(self, s, i, label):
+        """2-3 simulations that are handed the same decorated assertions: populations that are unrelated, shrink
+        (the later simulation lacks ids the earlier one had), keep their size with ids changing type, or stay the
+        same; run one after the other, all built before any is run (in any order), or stepped side by side"""
+        r = random.Random(s)
+        specs = []
+        for _ in range(r.choice([1, 1, 2, 2, 3])):
+            kind = r.choice(["eventuallyProto"] * 5 + ["eventuallySim", "eventuallySim", "alwaysProto", "alwaysSim"])
+            attr = "a" if kind.startswith("always") else "b"
+            if kind.endswith("Proto"):
+                specs.append({"kind": kind, "T": r.randint(0, 1), "attr": attr})
+            else:
+                specs.append({"kind": kind, "fn": r.choice(SIM_FNS), "attr": attr})
+        count = r.choice([2, 2, 2, 3])
+        shape = r.choice(["free", "shrinking", "shrinking", "retyped", "same", "growing"])
+        sims, ptypes = [], None
+        for j in range(count):
+            if j > 0 and shape != "free":
+                prev = sims[-1]["ptypes"]
+                if shape == "shrinking":
+                    ptypes = prev[:max(1, len(prev) - r.randint(1, 2))]
+                elif shape == "growing":
+                    ptypes = (prev + [r.randint(0, 1), r.randint(0, 1)])[:min(4, len(prev) + r.randint(1, 2))]
+                elif shape == "retyped":
+                    ptypes = [1 - t if r.random() < 0.5 else t for t in prev]
+                else:
+                    ptypes = list(prev)
+            sims.append(self.gen_case(stable_hash("C18", "member", s, j), i, label, specs=specs, ptypes=ptypes))
+        plan = r.choice(["sequential", "build-first", "build-first", "interleaved", "interleaved"])
+        case = {"kind": "assertions", "seed": s, "label": label, "specs": specs, "handler": self.gen_handler(s),
+                "plan": plan, "sims": sims}
+        if plan == "build-first":
+            order = list(range(count))
+            r.shuffle(order)
+            case["runOrder"] = order
+        elif plan == "interleaved":
+            total = sum(len(sim["events"]) + 1 for sim in sims)
+            case["turns"] = [r.randrange(count) for _ in range(r.randint(0, total))]
+        return case
 
     @staticmethod
     def gen_stale(r, ptypes, init, events, of_T, of_E):
@@ -377,34 +590,49 @@ class C18(Check):
     def widen(self, seed, tier):
         for i in range(1500):
             yield self.gen_case(stable_hash("C18", "widen", seed, i), i, f"widen/{seed}/{i}")
+        for i in range(500):
+            yield self.gen_batch(stable_hash("C18", "widen-batch", seed, i), i, f"widen-batch/{seed}/{i}")
 
     # ---- implementation / model
     def run_impl(self, case):
         return run_real(case)
 
     def model_input(self, case, impl):
-        tables = pred_tables(case)
-        specs = []
-        for sp, tab in zip(case["specs"], tables):
-            d = {"kind": sp["kind"], "pred": tab}
-            if sp["kind"].endswith("Proto"):
-                d["T"] = sp["T"]
-            specs.append(d)
-        return {"kind": "assertion", "n": len(case["ptypes"]), "ptypes": case["ptypes"], "N": run_length(case),
-                "eager": self.eager(), "specs": specs}
+        runs = []
+        for sim in sims_of(case):
+            specs = []
+            for sp, tab in zip(case["specs"], pred_tables(sim, case["specs"])):
+                d = {"kind": sp["kind"], "pred": tab}
+                if sp["kind"].endswith("Proto"):
+                    d["T"] = sp["T"]
+                specs.append(d)
+            runs.append({"n": len(sim["ptypes"]), "ptypes": sim["ptypes"], "N": run_length(sim),
+                         "eager": self.eager(), "specs": specs})
+        return {"kind": "assertion", "runs": runs}
+
+    @staticmethod
+    def where(case, k):
+        return f"simulation {k} of the batch ({case.get('plan', 'sequential')}): " if "sims" in case else ""
 
     def compare(self, case, impl, model):
+        diffs = []
+        for k, (sim, obs, mod) in enumerate(zip(sims_of(case), impl["runs"], model["runs"])):
+            diffs += [self.where(case, k) + d for d in self.compare_run(sim, case["specs"], obs, mod)]
+        return diffs
+
+    @staticmethod
+    def compare_run(sim, specs, impl, model):
         diffs = []
         if impl["verdict"] != model["verdict"] or impl["executed"] != model["executed"]:
             diffs.append(f"implementation: verdict {impl['verdict']} after {impl['executed']} events / model: "
                          f"{model['verdict']} after {model['executed']}")
         # the protocol callbacks that ran are those of the script: cancelled timers are executed without one
-        want_delivered = [k for k, runs in execution(case)[:impl["executed"]] if runs]
+        want_delivered = [k for k, runs in execution(sim)[:impl["executed"]] if runs]
         if impl["delivered"] != want_delivered:
             diffs.append(f"protocol callbacks ran for events {impl['delivered']}; the script says {want_delivered} "
                          f"within the {impl['executed']} executed events")
         # the scripted timeline is what the real predicates saw
-        tables = pred_tables(case)
+        tables = pred_tables(sim, specs)
         for idx, node, executed, value in impl["seen"]:
             i = executed - 1
             try:
@@ -416,11 +644,12 @@ class C18(Check):
                 break
         return diffs
 
-    # ---- the property, read directly
-    def expectation(self, case):
-        N = run_length(case)
-        tables = pred_tables(case)
-        ptypes = case["ptypes"]
+    # ---- the property, read directly (every simulation by its own timeline)
+    @staticmethod
+    def expectation(sim, specs):
+        N = run_length(sim)
+        tables = pred_tables(sim, specs)
+        ptypes = sim["ptypes"]
 
         def violated(sp, tab, i):
             if sp["kind"] == "alwaysProto":
@@ -429,9 +658,9 @@ class C18(Check):
                 return not tab[i]
             return False
 
-        first = next((i for i in range(N) if any(violated(sp, tab, i) for sp, tab in zip(case["specs"], tables))), None)
+        first = next((i for i in range(N) if any(violated(sp, tab, i) for sp, tab in zip(specs, tables))), None)
         never = []
-        for sp, tab in zip(case["specs"], tables):
+        for sp, tab in zip(specs, tables):
             if sp["kind"] == "eventuallySim" and not any(tab[i] for i in range(N)):
                 never.append(sp)
             if sp["kind"] == "eventuallyProto" and any(
@@ -441,7 +670,13 @@ class C18(Check):
 
     def oracle(self, case, impl):
         fails = []
-        N, first, never = self.expectation(case)
+        for k, (sim, obs) in enumerate(zip(sims_of(case), impl["runs"])):
+            fails += [(sig, self.where(case, k) + msg) for sig, msg in self.oracle_run(sim, case["specs"], obs)]
+        return fails
+
+    def oracle_run(self, sim, specs, impl):
+        fails = []
+        N, first, never = self.expectation(sim, specs)
         v, ex = impl["verdict"], impl["executed"]
         if isinstance(v, str) and v.startswith("crash:"):
             return [("C18:" + v, f"the run aborted with {v[6:]}")]
@@ -476,20 +711,23 @@ class C18(Check):
 
     # ---- bookkeeping
     def nontrivial(self, case, impl):
-        ptypes = case["ptypes"]
+        return any(self.nontrivial_run(sim, case["specs"]) for sim in sims_of(case))
+
+    def nontrivial_run(self, sim, specs):
+        ptypes = sim["ptypes"]
         if len(set(ptypes)) < 2:
             return False
-        N, first, never = self.expectation(case)
-        tables = pred_tables(case)
+        N, first, never = self.expectation(sim, specs)
+        tables = pred_tables(sim, specs)
         if first is not None:
-            for sp, tab in zip(case["specs"], tables):
+            for sp, tab in zip(specs, tables):
                 if sp["kind"] == "alwaysProto":
                     bad = [k for k in range(len(ptypes)) if ptypes[k] == sp["T"] and not tab[first][k]]
                     last = max(k for k in range(len(ptypes)) if ptypes[k] == sp["T"]) if sp["T"] in ptypes else None
                     if bad and bad == [last]:
                         return True
             return False
-        for sp, tab in zip(case["specs"], tables):
+        for sp, tab in zip(specs, tables):
             if sp in never and sp["kind"] == "eventuallyProto":
                 of = [k for k in range(len(ptypes)) if ptypes[k] == sp["T"]]
                 missing = [k for k in of if not any(tab[i][k] for i in range(N))]
@@ -498,15 +736,75 @@ class C18(Check):
         return False
 
     def key(self, case, impl):
-        return json.dumps([case["ptypes"], case["specs"], pred_tables(case), impl["verdict"]], sort_keys=True)
+        sims = sims_of(case)
+        return json.dumps([[sim["ptypes"] for sim in sims], case["specs"], [pred_tables(sim, case["specs"]) for sim in sims],
+                           [obs["verdict"] for obs in impl["runs"]], case.get("plan") if len(sims) > 1 else None],
+                          sort_keys=True)
 
     def sample(self, case, impl):
-        return {"label": case.get("label"), "ptypes": case["ptypes"], "specs": case["specs"], "events": case["events"],
-                "maxIter": case.get("maxIter"), "drive": case["drive"], "verdict": impl["verdict"], "executed": impl["executed"]}
+        sims = sims_of(case)
+        out = {"label": case.get("label"), "specs": case["specs"], "handler": case.get("handler", "plain"),
+               "verdicts": [obs["verdict"] for obs in impl["runs"]], "executed": [obs["executed"] for obs in impl["runs"]]}
+        if "sims" in case:
+            out.update({"plan": case.get("plan"), "sims": [{"ptypes": sim["ptypes"], "events": sim["events"],
+                                                            "maxIter": sim.get("maxIter")} for sim in sims]})
+        else:
+            out.update({"ptypes": case["ptypes"], "events": case["events"], "maxIter": case.get("maxIter"),
+                        "drive": case["drive"]})
+        return out
 
     def stats(self, case, impl, acc):
-        acc["cases"] = acc.get("cases", 0) + 1
-        N, first, never = self.expectation(case)
+        def count(name):
+            acc[name] = acc.get(name, 0) + 1
+        count("cases")
+        count("handler_" + case.get("handler", "plain"))
+        sims, specs = sims_of(case), case["specs"]
+        if "sims" in case:
+            count("batches")
+            count("batch_plan_" + case.get("plan", "sequential"))
+            expected = [self.expectation(sim, specs) for sim in sims]
+            outcomes = {"interrupted" if first is not None else "failedAtEnd" if never else "passed"
+                        for _, first, never in expected}
+            if len(outcomes) > 1:
+                count("batch_with_different_outcomes")
+            if any(a["ptypes"] != b["ptypes"] for a, b in zip(sims, sims[1:])):
+                count("batch_with_different_populations")
+            if any(sp["kind"] == "eventuallyProto" for sp in specs):
+                count("batch_sharing_eventually_for_protocol")
+                if self.unmet_id_absent_elsewhere(sims, specs):
+                    count("batch_unmet_node_id_absent_or_other_type_in_another_simulation")
+                if case.get("plan", "sequential") != "sequential" and self.met_in_one_unmet_in_other(sims, specs):
+                    count("batch_overlapping_node_id_met_in_one_simulation_only")
+        for sim, obs in zip(sims, impl["runs"]):
+            self.stats_run(sim, specs, obs, acc)
+
+    def unmet_id_absent_elsewhere(self, sims, specs):
+        """a node id whose protocol-scoped eventually-predicate is never met in one simulation is no node of the
+        asserted type in another simulation of the batch, where everything is met"""
+        for sp, tabs in ((sp, [pred_tables(sim, [sp])[0] for sim in sims]) for sp in specs if sp["kind"] == "eventuallyProto"):
+            met = [{k for k, t in enumerate(sim["ptypes"]) if t == sp["T"] and any(tab[i][k] for i in range(run_length(sim)))}
+                   for sim, tab in zip(sims, tabs)]
+            of = [{k for k, t in enumerate(sim["ptypes"]) if t == sp["T"]} for sim in sims]
+            for a in range(len(sims)):
+                for b in range(len(sims)):
+                    if a != b and (of[a] - met[a]) - of[b] and met[b] == of[b]:
+                        return True
+        return False
+
+    def met_in_one_unmet_in_other(self, sims, specs):
+        for sp, tabs in ((sp, [pred_tables(sim, [sp])[0] for sim in sims]) for sp in specs if sp["kind"] == "eventuallyProto"):
+            met = [{k for k, t in enumerate(sim["ptypes"]) if t == sp["T"] and any(tab[i][k] for i in range(run_length(sim)))}
+                   for sim, tab in zip(sims, tabs)]
+            of = [{k for k, t in enumerate(sim["ptypes"]) if t == sp["T"]} for sim in sims]
+            for a in range(len(sims)):
+                for b in range(len(sims)):
+                    if a != b and met[a] & (of[b] - met[b]):
+                        return True
+        return False
+
+    def stats_run(self, case, specs, impl, acc):
+        acc["simulations"] = acc.get("simulations", 0) + 1
+        N, first, never = self.expectation(case, specs)
         acc[f"events_{min(N, 7)}"] = acc.get(f"events_{min(N, 7)}", 0) + 1
         acc["drive_" + case["drive"]["mode"]] = acc.get("drive_" + case["drive"]["mode"], 0) + 1
         v = impl["verdict"]
@@ -516,7 +814,7 @@ class C18(Check):
             acc[f"first_violation_at_{first}"] = acc.get(f"first_violation_at_{first}", 0) + 1
             if first == N - 1:
                 acc["first_violation_at_last"] = acc.get("first_violation_at_last", 0) + 1
-        for sp in case["specs"]:
+        for sp in specs:
             acc["spec_" + sp["kind"]] = acc.get("spec_" + sp["kind"], 0) + 1
         ex = execution(case)
         silent = [i for i, (_, runs) in enumerate(ex) if not runs]
@@ -526,15 +824,15 @@ class C18(Check):
                 acc["runs_of_cancelled_timer_events_only"] = acc.get("runs_of_cancelled_timer_events_only", 0) + 1
             if first is not None and first in silent:
                 acc["first_violation_at_cancelled_timer_event"] = acc.get("first_violation_at_cancelled_timer_event", 0) + 1
-            if self.met_only_at(case, silent):
+            if self.met_only_at(case, specs, silent):
                 acc["eventually_met_only_at_cancelled_timer_events"] = \
                     acc.get("eventually_met_only_at_cancelled_timer_events", 0) + 1
 
-    def met_only_at(self, case, positions):
+    def met_only_at(self, sim, specs, positions):
         """some eventually-assertion is met, and would not be if the given iterations were not judged"""
-        N, ptypes = run_length(case), case["ptypes"]
+        N, ptypes = run_length(sim), sim["ptypes"]
         rest = [i for i in range(N) if i not in positions]
-        for sp, tab in zip(case["specs"], pred_tables(case)):
+        for sp, tab in zip(specs, pred_tables(sim, specs)):
             if sp["kind"] == "eventuallySim" and any(tab[i] for i in range(N)) and not any(tab[i] for i in rest):
                 return True
             if sp["kind"] == "eventuallyProto":
@@ -546,37 +844,73 @@ class C18(Check):
 
     def shrink(self, case, still_fails):
         best = copy.deepcopy(case)
+
+        def attempt(change):
+            """apply the change to a copy; keep it when the failure is still there"""
+            nonlocal best
+            cand = copy.deepcopy(best)
+            if change(cand) is False:
+                return False
+            if still_fails(cand):
+                best = cand
+                return True
+            return False
+
+        def drop_sim(k):
+            def change(c):
+                del c["sims"][k]
+                if "runOrder" in c:
+                    c["runOrder"] = [j - 1 if j > k else j for j in c["runOrder"] if j != k]
+                if "turns" in c:
+                    c["turns"] = [j - 1 if j > k else j for j in (t % (len(c["sims"]) + 1) for t in c["turns"]) if j != k]
+            return change
+
+        def drop_event(si, i):
+            def change(c):
+                evs = sims_of(c)[si]["events"]
+                del evs[i]
+                for ev in evs:       # event indices name the cancelling callbacks: keep them pointing right
+                    cb = cancelled_by(ev)
+                    if isinstance(cb, int):
+                        ev[4] = "init" if cb == i else cb - 1 if cb > i else cb
+            return change
+
+        def set_cancel(si, i, simpler):
+            def change(c):
+                evs = sims_of(c)[si]["events"]
+                evs[i] = evs[i][:4] + ([simpler] if simpler else [])
+            return change
+
         changed = True
         while changed:
             changed = False
+            if best.get("handler", "plain") != "plain":
+                changed |= attempt(lambda c: c.__setitem__("handler", "plain"))
             for i in range(len(best["specs"]) - 1, -1, -1):
                 if len(best["specs"]) > 1:
-                    cand = copy.deepcopy(best)
-                    del cand["specs"][i]
-                    if still_fails(cand):
-                        best, changed = cand, True
-            for i in range(len(best["events"]) - 1, -1, -1):
-                cand = copy.deepcopy(best)
-                del cand["events"][i]
-                for ev in cand["events"]:       # event indices name the cancelling callbacks: keep them pointing right
-                    c = cancelled_by(ev)
-                    if isinstance(c, int):
-                        ev[4] = "init" if c == i else c - 1 if c > i else c
-                if still_fails(cand):
-                    best, changed = cand, True
-            for i in range(len(best["events"])):
-                c = cancelled_by(best["events"][i])
-                for simpler in ([None, "init"] if isinstance(c, int) else [None] if c == "init" else []):
-                    cand = copy.deepcopy(best)
-                    cand["events"][i] = cand["events"][i][:4] + ([simpler] if simpler else [])
-                    if still_fails(cand):
-                        best, changed = cand, True
-                        break
-            if best.get("maxIter") is not None:
-                cand = copy.deepcopy(best)
-                cand["maxIter"] = None
-                if still_fails(cand):
-                    best, changed = cand, True
+                    changed |= attempt(lambda c: c["specs"].__delitem__(i))
+            if "sims" in best:
+                for k in range(len(best["sims"]) - 1, -1, -1):
+                    if len(best["sims"]) > 1:
+                        changed |= attempt(drop_sim(k))
+                if best.get("plan") == "interleaved" and best.get("turns"):
+                    changed |= attempt(lambda c: c.__setitem__("turns", []))
+                if best.get("plan") == "interleaved":
+                    changed |= attempt(lambda c: (c.pop("turns", None), c.__setitem__("plan", "build-first")))
+                if best.get("plan", "sequential") != "sequential":
+                    changed |= attempt(lambda c: (c.pop("turns", None), c.pop("runOrder", None),
+                                                  c.__setitem__("plan", "sequential")))
+            for si in range(len(sims_of(best))):
+                for i in range(len(sims_of(best)[si]["events"]) - 1, -1, -1):
+                    changed |= attempt(drop_event(si, i))
+                for i in range(len(sims_of(best)[si]["events"])):
+                    cb = cancelled_by(sims_of(best)[si]["events"][i])
+                    for simpler in ([None, "init"] if isinstance(cb, int) else [None] if cb == "init" else []):
+                        if attempt(set_cancel(si, i, simpler)):
+                            changed = True
+                            break
+                if sims_of(best)[si].get("maxIter") is not None:
+                    changed |= attempt(lambda c: sims_of(c)[si].__setitem__("maxIter", None))
         return best
 
 
